@@ -221,7 +221,7 @@ def launch_workers(chk: Check, reqs):
             crashes.append((begun or {"begin": "?"}, rc, (err or "")[-300:]))
             if cur.get("mode") == "sweep" and begun and isinstance(begun.get("begin"), str) and "." in begun["begin"]:
                 cur = dict(cur, resume=begun["begin"])  # carry on after the case that killed the worker
-            elif cur.get("mode") == "operators" and begun and isinstance(begun.get("begin"), int):
+            elif cur.get("mode") in ("operators", "mismatch") and begun and isinstance(begun.get("begin"), int):
                 cur = dict(cur, resume_index=begun["begin"])
             else:
                 break
@@ -466,11 +466,17 @@ class Judge:
 
     def record(self, rec, cap, stream):
         chk = self.chk
-        payload = case_payload(rec, cap) if stream == "sweep" else {"operator_case": {k: rec[k] for k in ("op", "lf", "rf", "ld", "rd", "le", "re", "scalar")}, "capacity": cap}
+        payload = case_payload(rec, cap) if stream in ("sweep", "mismatch") else {"operator_case": {k: rec[k] for k in ("op", "lf", "rf", "ld", "rd", "le", "re", "scalar")}, "capacity": cap}
         payload["stream"] = stream
         if rec["status"] == "skip":
             chk.count("skipped:" + rec["error"].split(":")[0].split("@")[0])
             return
+        if rec["status"] == "refused":
+            chk.count("mismatch:refused-with-ValueError" + ("" if not rec.get("consistent") else "(consistent sizes!)"))
+            chk.case((stream, cap, json.dumps(payload, sort_keys=True)), nontrivial=True)
+            return
+        if stream == "mismatch":
+            chk.count("mismatch:returned-a-tensor:" + ("consistent-sizes" if rec.get("consistent") else "INCONSISTENT-sizes"))
         if rec["status"] == "error":
             chk.count("error:" + rec["error"].split(":")[0])
             self.violation("evaluate raised an undocumented error: " + rec["error"], payload)
@@ -573,7 +579,8 @@ def run(chk: Check):
         "sweep.TEMPLATES + 19 extra templates, restricted to (assignment, formats) whose OUTPUT format has a "
         "compressed level (formats from sweep.format_choices plus every compressed-output format against all-dense "
         "and all-compressed inputs), index sizes in {0,1,2,3} plus one larger mostly-full input, patterns "
-        "random/full/empty/explicit zeros, x initial capacity {1,2,3,default}; operators + - * @ on random pairs; "
+        "random/full/empty/explicit zeros, x initial capacity {1,2,3,default}; operators + - * @ on random pairs; mismatch stream: 10 assignments called with arguments that disagree about an index size "
+        "(all arguments the same non-square shape used transposed, or independent shapes) -- refused with ValueError or a well-formed tensor; "
         "a case is distinct by (stream, capacity, problem, input) and non-trivial when a compressed output level "
         "stores at least one coordinate"
     )
@@ -610,12 +617,15 @@ def run(chk: Check):
                            "timeout": 2400 if thorough else 900}))
     reqs.append(("", {"mode": "operators", "seed": chk.seed, "tier": chk.tier}))
     reqs.append(("1", {"mode": "operators", "seed": chk.seed, "tier": chk.tier}))
+    # arguments that disagree about an index size (same shape used transposed, or independent shapes):
+    # refused, or a well-formed tensor
+    reqs.append(("", {"mode": "mismatch", "seed": chk.seed, "tier": chk.tier}))
     t0 = _t.time()
     results = launch_workers(chk, reqs)
     chk.note(f"timing: workers {_t.time() - t0:.0f}s")
     t0 = _t.time()
     for cap, req, recs, crashed, err, rc in results:
-        stream = "operators" if req["mode"].startswith("operator") else "sweep"
+        stream = "operators" if req["mode"].startswith("operator") else "mismatch" if req["mode"].startswith("mismatch") else "sweep"
         for rec in recs:
             if "status" in rec:
                 judge.record(rec, cap, stream)
@@ -711,6 +721,8 @@ def replay(chk: Check, payload):
     cap = payload.get("capacity", "")
     if payload.get("stream") == "operators" or "operator_case" in payload:
         req = {"mode": "operator_cases", "cases": [payload["operator_case"]]}
+    elif payload.get("stream") == "mismatch":
+        req = {"mode": "mismatch_cases", "cases": [{"assignment": payload["assignment"], "formats": payload["formats"], "inputs": payload["inputs"]}]}
     elif payload.get("assignment") and payload.get("inputs") is not None:
         req = {"mode": "cases", "cases": [{"assignment": payload["assignment"], "formats": payload["formats"], "inputs": payload["inputs"]}]}
     else:
@@ -724,7 +736,7 @@ def replay(chk: Check, payload):
     judge = Judge(chk)
     for rec in recs:
         if "status" in rec:
-            judge.record(rec, cap, "operators" if "operator_case" in payload else "sweep")
+            judge.record(rec, cap, "operators" if "operator_case" in payload else payload.get("stream") if payload.get("stream") == "mismatch" else "sweep")
     items = [(i, tensor_term(r)) for (i, r) in judge.tensors.values()]
     failing, errors = run_coq_shards(chk, "replay", items, wf_file)
     bad = bool(judge.viol) or bool(failing) or bool(errors) or bool(chk.broken)
